@@ -540,12 +540,20 @@ func cmdCheck(args []string) int {
 					ccfg := cfg
 					ccfg.Confirm = id
 					ccfg.MaxViolations = 1
+					ccfg.MaxViolations = 64
 					cout := sym.Explore(ld.Prog, fn, substs, &ccfg)
 					addSolver(&cs.solver, cout.Stats.Solver)
 					cs.totalPaths += cout.Stats.Paths
-					if len(cout.Violations) > 0 {
+					var hit *sym.Violation
+					for _, v := range cout.Violations {
+						if v.Known == id {
+							hit = v
+							break
+						}
+					}
+					if hit != nil {
 						confirmed[id] = true
-						line := fmt.Sprintf("KNOWN-FINDING: property=%s %s: %s (reproduced: harness=%s shape=%s label=%s)", prop, id, kf.What, h.Name, shapeString(shape), cout.Violations[0].Label)
+						line := fmt.Sprintf("KNOWN-FINDING: property=%s %s: %s (reproduced: harness=%s shape=%s label=%s)", prop, id, kf.What, h.Name, shapeString(shape), hit.Label)
 						fmt.Println(line)
 						cs.knownLines = append(cs.knownLines, line)
 					}
